@@ -211,6 +211,9 @@ def cmd_text(ws, l):
     if t.get("slow"):
         # a command that is still running when the build is interrupted (a shell loop: killing the shell ends it)
         L.append("i=0; while [ $i -lt %d ]; do sleep 0.1; i=$((i+1)); done" % int(t["slow"]))
+    if t.get("failif"):
+        # fails while a file outside inputs / outputs exists: a failure that does not change the target's key
+        L.append('if [ -e "$GROG_WORKSPACE_ROOT/' + t["failif"] + '" ]; then exit 3; fi')
     beh = t.get("beh", 0)
     if beh == 1:
         L.append("exit 3")
@@ -219,7 +222,9 @@ def cmd_text(ws, l):
     if beh >= 3:
         # the script ENDS with a statement whose failure `set -e` does not turn into an abort (or a subshell / child exit):
         # the exit status of the script is the status of that last statement
-        L.append({3: "false && true", 4: "! true", 5: "(exit 3)", 6: "sh -c 'exit 4'"}.get(beh, "exit 5"))
+        L.append({3: "false && true", 4: "! true", 5: "(exit 3)", 6: "sh -c 'exit 4'",
+                  # overruns its 300 ms timeout and exits 0 when it is asked to terminate (graceful shutdown)
+                  7: "trap 'exit 0' TERM; sleep 3 & wait $!"}.get(beh, "exit 5"))
         return "\n".join(L)
     L.append('W="$GROG_WORKSPACE_ROOT"')
     L.append('c="$(mktemp)"')
@@ -327,7 +332,7 @@ def build_files(ws):
             d["environment_variables"] = dict(t["env"])
         if t.get("checks"):
             d["output_checks"] = [check_cmd(c) for c in t["checks"]]
-        if t.get("beh", 0) == 2:
+        if t.get("beh", 0) in (2, 7):
             d["timeout"] = "300ms"
         pk.setdefault(t["pkg"], {"targets": [], "aliases": []})["targets"].append(d)
     for l, a in sorted(ws["aliases"].items()):
@@ -449,6 +454,13 @@ def read_path(root, p):
                 out += b"F" + _fr(rel.encode()) + _fr(open(fp, "rb").read())
         return out.decode("latin-1")
     if os.path.isfile(full):
+        if os.path.getsize(full) > (1 << 20):
+            # big artefacts are summarised (digest + size), not kept in memory once per snapshot
+            hh = hashlib.sha256()
+            with open(full, "rb") as fh:
+                for chunk in iter(lambda: fh.read(1 << 20), b""):
+                    hh.update(chunk)
+            return "BIG:%s:%d" % (hh.hexdigest(), os.path.getsize(full))
         return open(full, "rb").read().decode("latin-1")
     return None
 
@@ -482,12 +494,12 @@ def grog_env(root_dir, trace):
 FLAKES = {"impl_timeouts": 0, "timeout_dumps": []}
 
 
-def run_grog(grog, wsdir, root_dir, trace, args, timeout=40):
+def run_grog(grog, wsdir, root_dir, trace, args, timeout=40, extra_env=None):
     """run the real binary; a build normally takes ~0.6 s. On a timeout the process gets SIGQUIT first so that the Go runtime
     dumps all goroutines (kept in the log: a hang is a finding for the termination property C04, not for the callers here)."""
     import signal
-    p = subprocess.Popen([grog] + args, cwd=wsdir, env=grog_env(root_dir, trace), stdout=subprocess.PIPE, stderr=subprocess.STDOUT,
-                         text=True, errors="replace")
+    p = subprocess.Popen([grog] + args, cwd=wsdir, env=dict(grog_env(root_dir, trace), **(extra_env or {})), stdout=subprocess.PIPE,
+                         stderr=subprocess.STDOUT, text=True, errors="replace")
     try:
         out, _ = p.communicate(timeout=timeout)
         return p.returncode, out[-3000:]
@@ -576,10 +588,10 @@ def taints(root_dir):
 
 def build_args(step, force_minimal=None):
     minimal = step.get("minimal", False) if (force_minimal is None or step.get("pin_mode")) else force_minimal
-    a = ["build"] + list(step["patterns"])
+    a = [step.get("cmd", "build")] + list(step["patterns"])        # cmd: "build" | "test"
     a.append("--load-outputs=" + ("minimal" if minimal else "all"))
-    if not step.get("enable_cache", True):
-        a.append("--enable-cache=false")
+    if not step.get("enable_cache", True) and step.get("disable_via", "flag") == "flag":
+        a.append("--enable-cache=false")        # other ways: GROG_ENABLE_CACHE=false (run_real), enable_cache in grog.toml (an edit step)
     if step.get("fail_fast"):
         a.append("--fail-fast")
     if step.get("platform"):
@@ -647,7 +659,8 @@ def run_real(grog, hist, base, force_minimal=None, upto=None):
             if s.get("interrupt"):
                 rc, out = run_grog_interrupted(grog, wsdir, root_dir, trace, build_args(s, force_minimal), s["interrupt"], pos)
             else:
-                rc, out = run_grog(grog, wsdir, root_dir, trace, build_args(s, force_minimal))
+                rc, out = run_grog(grog, wsdir, root_dir, trace, build_args(s, force_minimal),
+                                   extra_env={"GROG_ENABLE_CACHE": "false"} if s.get("disable_via") == "env" and not s.get("enable_cache", True) else None)
             ex, pos = read_trace(trace, pos)
             cas_now = cas_snapshot(root_dir)
             rewritten = sorted(n for n, d in cas_now.items() if n in cas_seen and cas_seen[n] != d)
@@ -1702,10 +1715,10 @@ def describe(hist):
         elif s["k"] == "run":
             out.append("run " + " ".join(s["targets"]) + (" minimal" if s.get("minimal") else ""))
         else:
-            fl = ("" if s.get("enable_cache", True) else " --enable-cache=false") + (" minimal" if s.get("minimal") else "") + \
+            fl = ("" if s.get("enable_cache", True) else {"env": " [GROG_ENABLE_CACHE=false]", "toml": " [enable_cache = false in grog.toml]"}.get(s.get("disable_via"), " --enable-cache=false")) + (" minimal" if s.get("minimal") else "") + \
                  (" --fail-fast" if s.get("fail_fast") else "") + (" --platform=" + s["platform"] if s.get("platform") else "") + \
                  (" [interrupted by SIG%s once %s runs]" % (s["interrupt"].get("signal", "INT"), s["interrupt"]["when_started"]) if s.get("interrupt") else "")
-            out.append("build " + " ".join(s["patterns"]) + fl)
+            out.append(s.get("cmd", "build") + " " + " ".join(s["patterns"]) + fl)
     return out
 
 
